@@ -138,6 +138,25 @@ def opKeyTree (j : Json) : Except String Json := do
     Json.mkObj [("handled", r.handled), ("fired", match r.fired with | some i => Json.num i | none => Json.null)]
   pure (Json.mkObj [("render", resWdNodes (w.render cc width)), ("keys", Json.arr res.toArray)])
 
+/-- one kept `ColumnWidget` object rendered at several widths in turn -/
+def opColumn (j : Json) : Except String Json := do
+  let cc ← charClass (← field j "cc")
+  let cols ← (← arr (← field j "cols")).mapM fun c => do
+    match ← arr c with
+    | [cw, items] => pure ((← optNat cw), (← (← arr items).mapM tree))
+    | _ => throw "bad column"
+  let mut c : ColW := { spacing := ← nat (← field j "spacing"), cols := cols }
+  let mut out : Array Json := #[]
+  for w in ← (← arr (← field j "widths")).mapM int do
+    match c.render cc w with
+    | .ok c' =>
+      c := c'
+      let kids := c'.cols.flatMap (·.2)
+      out := out.push (Json.mkObj [("lines", ofGrid c'.st.buf), ("cur", ofCur c'.st.cur),
+        ("nodes", Json.arr (kids.flatMap fun k => ofGrid k.lines :: nodesOf k).toArray)])
+    | .error e => out := out.push (Json.mkObj [("err", errName e)])
+  pure (Json.arr out)
+
 def opKey (j : Json) : Except String Json := do
   let cc ← charClass (← field j "cc")
   let kp ← keyPat (← field j "kp")
@@ -194,6 +213,7 @@ def pureOp (op : String) (j : Json) : Option (Except String Json) :=
   | "gridseq" => some (opGridSeq j)
   | "key" => some (opKey j)
   | "keytree" => some (opKeyTree j)
+  | "column" => some (opColumn j)
   | "prompt" => some (opPrompt j)
   | "paging" => some (opPaging j)
   | _ => none
